@@ -465,10 +465,13 @@ func runCase(c Case) (lib.Result, error) {
 						same = false
 					}
 				}
+				if len(blk.Data) > 0 && blk.NSamp != len(blk.Data[0]) {
+					same = false
+				}
 				if !same {
 					// segments of one block disagree: render an impossible value so that it cannot pass
 					bo.First = -1 << 40
-					so.Note = "segments of one block disagree on first frame / dropped / signedness"
+					so.Note = "segments of one block disagree on first frame / dropped / signedness / nSamp"
 				}
 				so.Block = bo
 				if len(bo.Ext) > 0 {
